@@ -22,6 +22,7 @@ import (
 type c17Scenario struct {
 	world   string
 	subs    []string     // subscription operations, ids "1", "2", ...
+	vars    []map[string]interface{}
 	up      [][]upAction // upstream script per subscription
 	bound   int
 	planner string
@@ -36,7 +37,12 @@ func (sc c17Scenario) name() string {
 		}
 		us = append(us, "["+strings.Join(x, ",")+"]")
 	}
-	return fmt.Sprintf("subs=%s upstream=%s PB<=%d planner=%s", strings.Join(sc.subs, " || "), strings.Join(us, ""), sc.bound, sc.planner)
+	vs := ""
+	if len(sc.vars) > 0 {
+		b, _ := json.Marshal(sc.vars)
+		vs = " vars=" + string(b)
+	}
+	return fmt.Sprintf("subs=%s%s upstream=%s PB<=%d planner=%s", strings.Join(sc.subs, " || "), vs, strings.Join(us, ""), sc.bound, sc.planner)
 }
 
 type c17Obs struct {
@@ -66,7 +72,11 @@ func c17Harness(h *gwHarness, sc c17Scenario) explore.Harness {
 			})
 			writeClientFrame(cli, clientMsg("connection_init", "", nil))
 			for i, q := range sc.subs {
-				writeClientFrame(cli, clientMsg("start", fmt.Sprint(i+1), map[string]interface{}{"query": q}))
+				pl := map[string]interface{}{"query": q}
+				if i < len(sc.vars) && sc.vars[i] != nil {
+					pl["variables"] = sc.vars[i]
+				}
+				writeClientFrame(cli, clientMsg("start", fmt.Sprint(i+1), pl))
 				vrt.Recv(env.startedC)
 			}
 			vrt.Explore(true)
@@ -137,15 +147,23 @@ func c17Verdict(s *vrt.Sched, h *gwHarness, sc c17Scenario, o *c17Obs) string {
 		if i < len(sc.up) {
 			script = sc.up[i]
 		}
+		var cvars map[string]interface{}
+		if i < len(sc.vars) {
+			cvars = sc.vars[i]
+		}
 		for _, act := range script {
 			switch act {
-			case "event":
+			case "event", "dataerrors":
 				n++
-				data, err := gqlref.Execute(h.fed.Merged, h.fed.W.Monolith(h.fed.Merged, a.Counters{"__event": i*10 + n}), doc.Operations[0], nil, nil)
+				data, err := gqlref.Execute(h.fed.Merged, h.fed.W.Monolith(h.fed.Merged, a.Counters{"__event": i*10 + n}), doc.Operations[0], cvars, nil)
 				if err != nil {
 					return "HARNESS: reference failed " + err.Error()
 				}
-				want = append(want, map[string]interface{}{"data": gqlref.Norm(data)})
+				if act == "dataerrors" {
+					want = append(want, map[string]interface{}{"errors": "partial failure upstream"})
+				} else {
+					want = append(want, map[string]interface{}{"data": gqlref.Norm(data)})
+				}
 			case "errorpayload":
 				want = append(want, map[string]interface{}{"errors": "upstream says no"})
 			}
@@ -188,7 +206,7 @@ func c17Verdict(s *vrt.Sched, h *gwHarness, sc c17Scenario, o *c17Obs) string {
 				found := false
 				for _, x := range e {
 					b, _ := json.Marshal(x)
-					if strings.Contains(string(b), "upstream says no") {
+					if strings.Contains(string(b), fmt.Sprint(want[k]["errors"])) {
 						found = true
 					}
 				}
@@ -214,7 +232,7 @@ var c17Subs = []string{
 
 func c17Scenarios(tier string) []c17Scenario {
 	var out []c17Scenario
-	seqs := [][]upAction{{"event"}, {"event", "event"}, {"errorpayload"}, {"event", "errorpayload"}, {"errorpayload", "event"}, {"event", "complete"}, {"event", "event", "complete"}}
+	seqs := [][]upAction{{"event"}, {"event", "event"}, {"errorpayload"}, {"event", "errorpayload"}, {"errorpayload", "event"}, {"event", "complete"}, {"event", "event", "complete"}, {"dataerrors"}, {"event", "dataerrors"}}
 	if tier == "thorough" {
 		seqs = append(seqs, []upAction{"event", "event", "event"}, []upAction{"event", "errorpayload", "event"}, []upAction{"event", "error"}, []upAction{"event", "disconnect"})
 	}
@@ -231,6 +249,18 @@ func c17Scenarios(tier string) []c17Scenario {
 			out = append(out, c17Scenario{world: "W0+subscription-roots", subs: []string{p[0], p[1]}, up: [][]upAction{s, s}, bound: b, planner: "plain"})
 			out = append(out, c17Scenario{world: "W0+subscription-roots", subs: []string{p[0], p[1]}, up: [][]upAction{s, s}, bound: b, planner: "cached"})
 		}
+	}
+	// two subscriptions with their own variable values for a field owned by another service
+	vq := "subscription ($p: String) { n1Changed { name greet(prefix: $p) } }"
+	for _, s := range [][]upAction{{"event"}} {
+		b := 0
+		if tier == "thorough" {
+			b = 1
+		}
+		out = append(out, c17Scenario{world: "W0+subscription-roots+entity-scalar-arg-default", subs: []string{vq, vq},
+			vars: []map[string]interface{}{{"p": "en"}, {"p": "fr"}}, up: [][]upAction{s, s}, bound: b, planner: "plain"})
+		out = append(out, c17Scenario{world: "W0+subscription-roots+entity-scalar-arg-default", subs: []string{vq},
+			vars: []map[string]interface{}{{"p": "en"}}, up: [][]upAction{{"event", "event"}}, bound: 1, planner: "plain"})
 	}
 	for _, q := range c17Subs {
 		for _, s := range seqs {
@@ -251,7 +281,7 @@ func c17Scenarios(tier string) []c17Scenario {
 func init() {
 	Specs["C17"] = &Spec{
 		ID: "C17",
-		Rule: "scenario = (1-2 subscriptions on one connection out of 8 subscription operations whose selection needs 0, 1 or 2 other services, lists, value types, aliases, __typename; upstream event history per subscription over {event, error payload, complete} " +
+		Rule: "scenario = (1-2 subscriptions on one connection out of 9 subscription operations (one with a per-subscription variable for a field of another service) whose selection needs 0, 1 or 2 other services, lists, value types, aliases, __typename; upstream event history per subscription over {event, error payload, event with data and errors, complete} " +
 			"of length <=3; planner plain/cached); the real subscriptionHandler / subscriptionEntry / MultiOpQueryer.Subscribe (rewritten) run over scheduler-aware pipes against a gobwas upstream and evaluating in-memory services; " +
 			"every schedule with <=1 preemption (two subscriptions: bound 0 quick, 1 thorough) is executed; the client terminates once the system is idle; oracle at the client's frame parser: per subscription id the sequence of data payloads " +
 			"== reference evaluation of the client operation on each emitted event, in emission order, exactly once, helpers absent, never under another id, upstream error payloads arrive as errors; non-trivial = >1 execution",
